@@ -277,6 +277,11 @@ func (e *Evaluator) matchElements(elems []*cypher.PatternElement, env Env, used 
 			if depth >= max {
 				return nil
 			}
+			if depth == 1 && e.Dev.ExpansionStopsAfterInitialSelfLoop {
+				if first := e.edges[path.Edges[len(path.Edges)-1]]; first.Start == first.End {
+					return nil
+				}
+			}
 			for _, h := range e.hops(cur, rp.Direction, false) {
 				if stop {
 					return nil
